@@ -194,7 +194,7 @@ def run_pipeline(chk, items, rng, seed, nwalks=8, maxlen=24, chunk_mode='some', 
         good = [r for r in recs if r['rec']['status'] == 'ok']
         bad = [r for r in recs if r['rec']['status'] != 'ok']
         cases, skipped = to_cases(good)
-        verd, stats = runner.validate_traces(cases, shards=tlc_parallel, workers=4)
+        verd, stats = runner.validate_traces(cases, shards=max(8, tlc_parallel), workers=2)
         stats['states'] += out['cover_stats']['states']
         stats['transitions'] += out['cover_stats']['transitions']
         out.update(records=recs if keep_records else None, cases=cases, verdicts=verd, stats=stats, inputs=inputs,
